@@ -353,6 +353,23 @@ def _from_lin(c, d):
     return ('lin', c, items)
 
 
+def hoist_phi(e, ctx=_EMPTY, budget=4):
+    """The same expression with generation-time choices moved outward: f(phi(c, a, b)) -> phi(c, f(a), f(b)), innermost choice first,
+    at most `budget` times, normalised.  Two expressions that make the same choice at different depths meet in this form."""
+    e = norm(e, ctx)
+    for _ in range(budget):
+        inner = None
+        for x in walk(e):
+            if x[0] == 'phi' and x is not e:
+                inner = x
+                break
+        if inner is None or e[0] == 'phi' and not any(y[0] == 'phi' for a_ in (e[2], e[3]) for y in walk(a_)):
+            break
+        c_ = inner[1]
+        e = norm(('phi', c_, subst(e, lambda y: inner[2] if y == inner else None), subst(e, lambda y: inner[3] if y == inner else None)), ctx)
+    return e
+
+
 def _nonneg_int(e):
     """An integer expression that is never negative by what it is made of: widths, sizes, logarithms, lengths, their sums and products."""
     k = e[0]
@@ -487,6 +504,12 @@ def _norm1(e, ctx):
     if k == 'attr':
         if e[1][0] == 'slice' and e[2] in ('start', 'stop', 'step'):
             return e[1][{'start': 1, 'stop': 2, 'step': 3}[e[2]]]
+        # wiring.flipped(x) is a proxy: its signature is x's flipped, every plain attribute (the memory map, the widths) is x's own
+        if e[1][0] == 'call' and e[1][1] == ('name', 'flipped') and len(e[1][2]) == 1 and not e[1][3]:
+            if e[2] == 'signature':
+                return ('call', ('attr', ('attr', e[1][2][0], 'signature'), 'flip'), (), ())
+            if e[2] in ('memory_map', 'addr_width', 'data_width', 'granularity', 'features'):
+                return ('attr', e[1][2][0], e[2])
         cn = _cls_key(e[1], ctx)
         if cn is not None:
             m = _enum_member(ctx, cn, e[2])
@@ -730,6 +753,8 @@ def _norm1(e, ctx):
         # an operand that has meanwhile become a constant (or another product) is folded in
         r_ = _mk_nary(e[1], e[2])
         return r_ if r_ != e else None
+    if k == 'bin' and e[1] == '//' and e[2] == e[3] and _nonneg_int(e[2]) and e[2][0] != 'const':
+        return ('const', 1)                             # w // w for a width (never zero where the division is reached)
     if k == 'bin':
         op, a, b = e[1], e[2], e[3]
         if op == '>>' and not _has_str(a):
